@@ -1152,3 +1152,46 @@ Example c14_ex_meridian :
   c14_is_pole a = false /\ c14_is_pole b = false /\ c14_is_pole p = false /\ c14_triple a b p = 0 /\
   c14_pwg a b p = Some true /\ c14_pwg a b (-1, 0, 1) = Some false /\ c14_on_arc a b (-1, 0, 1) = false.
 Proof. cbv zeta. repeat split; try (vm_compute; congruence). Qed.
+
+(* ------------------------------------------------------------------------------------------ *)
+(* gca_gca_intersection end to end for arcs in general position *)
+Lemma c14_is_pole_neg v : c14_is_pole (c14_neg v) = c14_is_pole v.
+Proof.
+  destruct v as [[x y] z]. unfold c14_is_pole, c14_neg, c14_nsq, c14_dot, c14_x, c14_y, c14_z. cbn [fst snd].
+  replace (- x * - x + - y * - y + - z * - z) with (x * x + y * y + z * z) by ring.
+  replace (- z * - z) with (z * z) by ring. reflexivity.
+Qed.
+
+(* end to end: for two arcs in general position (neither plane contains the polar axis, no endpoint and neither
+   candidate in the pole snap zone, circles not numerically parallel) the faithful model of gca_gca_intersection
+   returns exactly the specified common points *)
+Lemma c14_gca_gca_general_correct w0 w1 v0 v1 :
+  let x := c14_cross (c14_cross w0 w1) (c14_cross v0 v1) in
+  let q := c14_nsq w0 * c14_nsq w1 * c14_nsq v0 * c14_nsq v1 in
+  c14_small (c14_x x) q && c14_small (c14_y x) q && c14_small (c14_z x) q = false ->
+  x <> (0, 0, 0) ->
+  c14_z (c14_cross w0 w1) <> 0 -> c14_z (c14_cross v0 v1) <> 0 ->
+  c14_is_pole w0 = false -> c14_is_pole w1 = false -> c14_is_pole v0 = false -> c14_is_pole v1 = false ->
+  c14_is_pole x = false ->
+  c14_gca_gca w0 w1 v0 v1 = Some (c14_arc_cross w0 w1 v0 v1).
+Proof.
+  intros x q Hs Hx Hw Hv Pw0 Pw1 Pv0 Pv1 Px.
+  assert (Hnx : c14_neg x <> (0, 0, 0)) by (apply c14_is0_false; rewrite c14_is0_neg; apply c14_is0_false; exact Hx).
+  assert (Pnx : c14_is_pole (c14_neg x) = false) by (rewrite c14_is_pole_neg; exact Px).
+  assert (T1 : c14_triple w0 w1 x = 0) by (unfold x; c14_ring).
+  assert (T2 : c14_triple v0 v1 x = 0) by (unfold x; c14_ring).
+  assert (T3 : c14_triple w0 w1 (c14_neg x) = 0) by (unfold x; c14_ring).
+  assert (T4 : c14_triple v0 v1 (c14_neg x) = 0) by (unfold x; c14_ring).
+  apply c14_gca_gca_structure; try exact Hs; fold x;
+    apply c14_pwg_general_correct; auto.
+Qed.
+
+Example c14_ex_gca_general :
+  let w0 := (1, 0, 0) in let w1 := (0, 1, 0) in let v0 := (1, 2, -1) in let v1 := (2, 1, 1) in
+  let x := c14_cross (c14_cross w0 w1) (c14_cross v0 v1) in
+  let q := c14_nsq w0 * c14_nsq w1 * c14_nsq v0 * c14_nsq v1 in
+  c14_small (c14_x x) q && c14_small (c14_y x) q && c14_small (c14_z x) q = false /\ x <> (0, 0, 0) /\
+  c14_z (c14_cross w0 w1) <> 0 /\ c14_z (c14_cross v0 v1) <> 0 /\
+  c14_is_pole w0 = false /\ c14_is_pole w1 = false /\ c14_is_pole v0 = false /\ c14_is_pole v1 = false /\ c14_is_pole x = false /\
+  c14_gca_gca w0 w1 v0 v1 = Some [(3, 3, 0)].
+Proof. cbv zeta. repeat split; try (vm_compute; congruence). Qed.
